@@ -35,6 +35,7 @@ VARIABLES
   nt,        \* texts handed to Send so far
   nsend,     \* party -> user sends after the prelude
   pc,        \* position in the prelude
+  hiA,       \* TRUE: A's DH-Commit hashes compare higher than B's (fixed per behaviour)
   used,      \* party -> receiving MAC keys that verified an accepted message
   disclosedEver, \* party -> MAC keys disclosed in emitted messages
   leaks,     \* number of user texts emitted in clear although encryption was due
@@ -47,8 +48,8 @@ VARIABLES
   evlog,     \* party -> sequence of security events
   path       \* schedule (history, not part of the fingerprint)
 
-vars == <<st, net, nx, nt, nsend, pc, phase, budget, delivered, accepted, rejects, evlog, used, disclosedEver, leaks, txlog, path>>
-view == <<st, net, nx, nt, nsend, pc, phase, budget, delivered, accepted, rejects, evlog, used, disclosedEver, leaks, txlog>>
+vars == <<st, net, nx, nt, nsend, pc, hiA, phase, budget, delivered, accepted, rejects, evlog, used, disclosedEver, leaks, txlog, path>>
+view == <<st, net, nx, nt, nsend, pc, hiA, phase, budget, delivered, accepted, rejects, evlog, used, disclosedEver, leaks, txlog>>
 
 FreshId(p) == Base(p) + nx[p] + 1
 Uses(s, id) == s.ax = id \/ s.cur = id
@@ -62,6 +63,7 @@ Init ==
   /\ nt = 0
   /\ nsend = [p \in Parties |-> 0]
   /\ pc = 1
+  /\ hiA \in BOOLEAN
   /\ used = [p \in Parties |-> {}]
   /\ disclosedEver = [p \in Parties |-> {}]
   /\ leaks = 0
@@ -90,7 +92,7 @@ Effect(p, r, step, own) ==
 Unflagged(r) == ~\E i \in DOMAIN r.evs : r.evs[i] = "msg:ReceivedMessageUnencrypted"
 
 DeliverMsg(p, m, own, idx, label) ==
-  \E hi \in (IF m.t = "DHC" /\ st[p].auth = "awDHKey" THEN BOOLEAN ELSE {FALSE}) :
+  \E hi \in (IF m.t = "DHC" /\ st[p].auth = "awDHKey" THEN {hiA = (p = "A")} ELSE {FALSE}) :
     LET r == ReceiveFrags(st[p], m, 1, FreshId(p), hi)
     IN /\ Effect(p, r, [a |-> label, p |-> p, i |-> idx, hi |-> hi], own)
        /\ used' = [used EXCEPT ![p] = IF m.t = "D" /\ st[p].ms = "enc" /\ ~r.err /\ m.mac[1] # 0
@@ -200,17 +202,19 @@ Drop(p) ==
 
 FreeDeliver(p) == phase = "free" /\ NetMode = "fifo" /\ Deliver(p) /\ pc' = pc
 
-Next ==
+Step ==
   \/ PreludeStep
   \/ \E p \in Parties :
        \/ FreeDeliver(p)
        \/ UserSend(p) \/ UserQuery(p) \/ UserEnd(p) \/ UserTick(p) \/ UserExtra(p)
        \/ DeliverAny(p) \/ Duplicate(p) \/ Drop(p)
 
+Next == Step /\ hiA' = hiA
+
 Spec == Init /\ [][Next]_vars
 
 \* Liveness needs fair deliveries only (users may stop at any time)
-FairSpec == Spec /\ WF_vars(\E p \in Parties : FreeDeliver(p)) /\ WF_vars(PreludeStep)
+FairSpec == Spec /\ WF_vars((\E p \in Parties : FreeDeliver(p)) /\ hiA' = hiA) /\ WF_vars(PreludeStep /\ hiA' = hiA)
 
 \* schedule export: one line per generated transition
 Emit == Export => PrintT(<<"SCHED", ToJson(path')>>)
